@@ -425,7 +425,10 @@ def confine_sides(prog, rep):
 
     bad, seen, scaled = [], set(), 0
     try:
-        summs = Paths(prog, inline=lambda g: prog.is_new(g)).of(f)
+        try:
+            summs = Paths(prog, inline=lambda g: prog.is_new(g)).of(f)
+        except Unsupported:
+            summs = Paths(prog, inline=lambda g: prog.is_new(g), loops="unroll", limit=20000, path_limit=4000).of(f)   # a loop over a table of the four sides
     except Unsupported as e:
         rep.check(False, "R18.7", "confine:sides", "cannot summarise CornerRadii::confine: %s" % e, status="undecided", at=f.span, fn=f.path)
         return
